@@ -315,11 +315,16 @@ class Ref:
         import datetime
         return type(v) is self.fam.get(t[1]) and type(v.items) is list and all(type(x) is datetime.date for x in v.items)
 
+    _STYPE_WIRE_LIST = ("tuple", "Tuple", (("seq", "List", ("int",)), ("int",)))
+
+    def _stype_wire(self, t):
+        return self._STYPE_WIRE_LIST if self.fam.defs[t[1]]["flavour"] == "annotations-list" else self._STYPE_WIRE
+
     def _e_stype(self, t, v, ctx):
         raw = v._serialize()
         if self.fam.defs[t[1]]["flavour"] == "plain":
             return raw
-        return self.enc(self._STYPE_WIRE, raw, dataclasses.replace(ctx, nt_engine_field=None))
+        return self.enc(self._stype_wire(t), raw, dataclasses.replace(ctx, nt_engine_field=None))
 
     def _e_seq(self, t, v, ctx):
         items = [self.enc(t[2], x, ctx) for x in v]
@@ -882,7 +887,7 @@ class Ref:
     def _d_stype(self, t, d, ctx):
         cls = self.fam.get(t[1])
         if self.fam.defs[t[1]]["flavour"] != "plain":
-            d = self.dec(self._STYPE_WIRE, d, dataclasses.replace(ctx, nt_engine_field=None))
+            d = self.dec(self._stype_wire(t), d, dataclasses.replace(ctx, nt_engine_field=None))
         return self._call(cls._deserialize, d)
 
     def _d_newtype(self, t, d, ctx):
